@@ -621,8 +621,11 @@ class C03(Check):
             yield with_key(trace, ['cfg', 'cutoff'], 0.0)
         if cfg['input']:
             yield with_key(trace, ['cfg', 'input'], None)
-        if cfg['precision'] != 'float64':
+        # (a complex-valued model stays complex: at a real precision the run is a different model)
+        if cfg['precision'] == 'float32':
             yield with_key(trace, ['cfg', 'precision'], 'float64')
+        if cfg['precision'] == 'complex64':
+            yield with_key(trace, ['cfg', 'precision'], 'complex128')
         if cfg['vectorize']:
             yield with_key(trace, ['cfg', 'vectorize'], False)
         if cfg['outputs'] != 'explicit':
